@@ -1213,7 +1213,7 @@ func (g *gen) focusOn(op Op) {
 			if strings.HasPrefix(r.Host, "HOutUnexp") {
 				g.focus = append(g.focus, MKey{T: "T1"}, MKey{T: "T0", Group: "g"}, MKey{T: "T0", Name: "a"})
 			}
-			if r.Host == "NS0" {
+			if r.Host == "NS0" || r.Host == "NS1" {
 				g.focus = append(g.focus, MKey{T: "I0", Group: "g"}, MKey{T: "T0", Group: "g"})
 			}
 			if strings.HasPrefix(r.Host, "sliceslice") {
